@@ -17,17 +17,21 @@ CONSTANTS MaxConds, Rich, Emit
 Null   == [t |-> "null"]
 IntV(n) == [t |-> "int", v |-> n]
 StrV(s) == [t |-> "str", v |-> s]                 \* s: sequence of one-character strings
-Vals == { Null, IntV(0), IntV(1), StrV(<<>>), StrV(<<"a">>), StrV(<<"o", "'", "q">>), StrV(<<"%">>) }
-Patterns == { <<"%">>, <<"a">>, <<>>, <<"a", "%">>, <<"%", "q">>, <<"o", "'", "q">>, <<"_">>, <<"A">> }
+BS == "\\"                                        \* one backslash
+Vals == { Null, IntV(0), IntV(1), StrV(<<>>), StrV(<<"a">>), StrV(<<"o", "'", "q">>), StrV(<<"%">>),
+          StrV(<<"a", BS, "_">>), StrV(<<"a", BS, "q">>) }
+(* LIKE without ESCAPE: a backslash in a pattern is an ordinary character *)
+Patterns == { <<"%">>, <<"a">>, <<>>, <<"a", "%">>, <<"%", "q">>, <<"o", "'", "q">>, <<"_">>, <<"A">>, <<"a", BS, "_">>, <<"%", BS, "%">> }
 Fields == {"a", "b"}
 
 (* the table: one row per pair of values, ids in a fixed enumeration order *)
-ValSeq == << Null, IntV(0), IntV(1), StrV(<<>>), StrV(<<"a">>), StrV(<<"o", "'", "q">>), StrV(<<"%">>) >>
+ValSeq == << Null, IntV(0), IntV(1), StrV(<<>>), StrV(<<"a">>), StrV(<<"o", "'", "q">>), StrV(<<"%">>),
+             StrV(<<"a", BS, "_">>), StrV(<<"a", BS, "q">>) >>
 NV == Len(ValSeq)
 Rows == [i \in 1 .. (NV * NV) |-> [id |-> i, a |-> ValSeq[((i - 1) \div NV) + 1], b |-> ValSeq[((i - 1) % NV) + 1]]]
 
 (* ---------- SQL value semantics (sqlite, columns without type affinity) ---------- *)
-CharRank(c) == CASE c = "%" -> 37 [] c = "'" -> 39 [] c = "0" -> 48 [] c = "1" -> 49 [] c = "A" -> 65
+CharRank(c) == CASE c = "%" -> 37 [] c = "'" -> 39 [] c = "0" -> 48 [] c = "1" -> 49 [] c = "A" -> 65 [] c = BS -> 92
                  [] c = "_" -> 95 [] c = "a" -> 97 [] c = "o" -> 111 [] c = "q" -> 113 [] OTHER -> 0
 RECURSIVE SeqLess(_, _)
 SeqLess(s, t) == IF t = <<>> THEN FALSE ELSE IF s = <<>> THEN TRUE
@@ -65,6 +69,8 @@ Like3(x, p) == IF x.t = "null" THEN "U" ELSE IF Match(p, Text(x)) THEN "T" ELSE 
 (* [k |-> "kwin", f, vs]          keyword filter with a list value: IN                             *)
 (* [k |-> "or", cs]               OR group of simple conditions (may be empty -> FALSE)            *)
 (* [k |-> "none"]                 a None argument, ignored                                         *)
+(* [k |-> "static", form]         a condition given as text: "colcol" = "a = b", "lit" = "a = 'a'"  *)
+(*                                 (the text goes into the statement as it is; nothing is bound)    *)
 RECURSIVE Eval3(_, _)
 Eval3(c, row) ==
   CASE c.k = "cmp" -> IF c.v.t = "null" /\ c.op = "=" THEN (IF row[c.f].t = "null" THEN "T" ELSE "F")
@@ -79,6 +85,7 @@ Eval3(c, row) ==
     [] c.k = "or" -> IF \E i \in 1 .. Len(c.cs) : Eval3(c.cs[i], row) = "T" THEN "T"
                      ELSE IF \E i \in 1 .. Len(c.cs) : Eval3(c.cs[i], row) = "U" THEN "U" ELSE "F"
     [] c.k = "none" -> "T"
+    [] c.k = "static" -> IF c.form = "colcol" THEN Cmp3("=", row["a"], row["b"]) ELSE Cmp3("=", row["a"], StrV(<<"a">>))
 
 Holds(conds, row) == \A i \in 1 .. Len(conds) : Eval3(conds[i], row) = "T"
 SelectAsc(conds) == SelectSeq([i \in 1 .. Len(Rows) |-> i], LAMBDA i : Holds(conds, Rows[i]))
@@ -114,11 +121,13 @@ OrPool == { [k |-> "cmp", f |-> "a", op |-> "=", v |-> IntV(1)], [k |-> "cmp", f
             [k |-> "cmp", f |-> "b", op |-> "=", v |-> Null], [k |-> "in", f |-> "b", neg |-> TRUE, vs |-> <<IntV(0), Null>>],
             [k |-> "in", f |-> "a", neg |-> FALSE, vs |-> <<>>], [k |-> "like", f |-> "a", neg |-> FALSE, p |-> <<"%", "q">>],
             [k |-> "isnull", f |-> "a", neg |-> TRUE], [k |-> "cmp", f |-> "a", op |-> "!=", v |-> StrV(<<"o", "'", "q">>)] }
+Statics == { [k |-> "static", form |-> "colcol"], [k |-> "static", form |-> "lit"] }
 Ors == { [k |-> "or", cs |-> <<>>] } \cup { [k |-> "or", cs |-> <<c>>] : c \in OrPool }
        \cup { [k |-> "or", cs |-> <<c, d>>] : c \in OrPool, d \in OrPool }
+       \cup { [k |-> "or", cs |-> <<c, d>>] : c \in Statics, d \in OrPool }
 Kws == { [k |-> "kw", f |-> f, v |-> v] : f \in Fields, v \in Vals }
        \cup { [k |-> "kwin", f |-> f, vs |-> vs] : f \in Fields, vs \in { <<>>, <<IntV(1)>>, <<StrV(<<"a">>), Null>> } }
-AllConds == Simple \cup Ors \cup Kws \cup { [k |-> "none"] }
+AllConds == Simple \cup Ors \cup Kws \cup { [k |-> "none"] } \cup Statics
 
 VARIABLES conds, desc, phase
 vars == <<conds, desc, phase>>
